@@ -144,7 +144,11 @@ static void prop(Tape &t, Ctx &c) {
             bool is_protected = secure_phase || (ver == TLS13 && x[0] == 23);
             if (x.size() <= HDR) return;
             size_t bit = HDR * 8 + r1 % ((x.size() - HDR) * 8); x[bit / 8] ^= (uint8_t) (1 << (bit % 8));
-            must_die = is_protected; deliver(x); break; }
+            must_die = is_protected;
+            // RFC 8446 4.2.10: a server that offered early data but does not use the client's skips records it cannot deprotect (up to
+            // max_early_data_size) - during such a handshake an undecryptable record is not necessarily fatal for the server
+            if (early && !vclient && !secure_phase) { must_die = false; c.count("corrupt-record-in-early-data-window:not-required-to-be-fatal"); }
+            deliver(x); break; }
         case E_OVERSIZE: { Bytes body(64, 0x41); Bytes r = mkrec(secure_phase ? 23 : 22, body, 16384 + 2049 + (r2 % 1000)); must_die = true; deliver(r); break; }
         case E_UNKNOWN_TYPE: { Bytes r = mkrec((uint8_t) (t.coin() ? 0x19 : 0x80 | (r2 & 0x7f)), Bytes(8, 1), 8); must_die = true; deliver(r); break; }
         case E_GARBAGE: { Bytes g(1 + r2 % 60); for (size_t i = 0; i < g.size(); i++) g[i] = (uint8_t) (r1 >> (i % 24)) ^ (uint8_t) i; deliver(g); break; }
